@@ -12,13 +12,24 @@
   `toksOK_of_lexOK_single` / `_multi` give a tree-level sufficient condition (`LNode.LexOK`).
 
   Documents are taken in *lexical normal form* (`LNode`): every text block is one text-like token of the
-  tokenizer — which is the form of every tree a parse produces.  For trees built through the API with other
-  text segmentations `html_norm` shows the serialisation does not depend on the segmentation, so the first
-  round trip lands in this form and the theorems apply from there (see `C01a_general_partial`).
+  tokenizer — which is the form of every tree a parse produces (`parsed_lexical_normal_form`).  For trees built
+  through the API with other text segmentations (several adjacent text blocks, empty text blocks)
+  `serialisation_ignores_text_segmentation` says only that the serialisation does not depend on the segmentation;
+  the round trip itself for such trees is `roundtrip_single_any_segmentation`: a tree `t` that is a lexical normal
+  form `l` up to text segmentation (`t.norm = l.toNode.norm`) serialises to the same text as `l`, and the parse of
+  that text is `t` with its stores re-read, up to text segmentation (`norm`).
+
+  Attribute preservation is PROVED, not assumed: `intake_viewStable` — every store `AdvancedTag.__init__` builds
+  from ANY raw attribute list (class, style, spellcheck, duplicates, upper case, invalid names) lists the same
+  name/value pairs after being re-read from its own listing; `parsed_stable` / `constructed_stable` — every tree a
+  parse produces and every tree built through the constructor from raw lists is `Stable`; the `…_parsed` /
+  `…_constructed` forms of the round-trip theorems have lexical hypotheses only.
 -/
 import AHP.Lemmas.RoundTrip
 import AHP.Lemmas.LexRoundTrip
 import AHP.Lemmas.LexRawTree
+import AHP.Lemmas.IntakeStableTree
+import AHP.Lemmas.IntakeStableNorm
 namespace AHP.C01
 open AHP AHP.Spec
 
@@ -220,9 +231,11 @@ theorem doctype_of_line (dt : Option Str) :
       simp [doctypeToks, docHTML]
     · simp [doctypeToks, hd, stepD]
 
-/-- **C01b.** Serialising the re-parsed document returns the identical string (for stores whose rendering
-    is stable under re-reading — `plain_viewStable` shows that this holds for every store without
-    class/style; C09/C10 cover those two). -/
+/-- **C01b.** Serialising the re-parsed document returns the identical string, for stores whose rendering
+    is stable under re-reading.  The hypothesis is DISCHARGED for every tree a parse produces and every tree built
+    through the constructor from raw attribute lists (class / style / spellcheck included) by `parsed_stable` /
+    `constructed_stable`: see `second_serialisation_identical_parsed` / `_constructed` below, which have no
+    `Stable` hypothesis.  (`plain_viewStable` is the earlier special case of stores without class/style/spellcheck.) -/
 theorem second_serialisation_identical (dt : Option Str) (n : Str) (a : AttrState) (sc : Bool) (kids : List LNode)
     (hst : (LNode.elem n a sc kids).toNode.Stable) :
     docHTML ((doctypeToks dt).foldl stepD none) (LNode.elem n a sc kids).toNode.reintake
@@ -471,5 +484,328 @@ example : ToksOK (toksL [.elem "script".toList AttrState.empty false [],
     .elem "style".toList AttrState.empty false [.tok (.data "a<b".toList)]]) :=
   toksOK_of_lexOK_multi _ (by simp only [WFLL, LNode.WF, Spec.textOf]; decide)
     (by simp only [LexOKL, LNode.LexOK, RawKidsOK, NoAdjL]; decide) (by simp [NoAdjL, isDataTok])
+
+/-! #### C01 — attribute preservation, PROVED for every parsed / constructed tree
+
+  Review finding (C01-1): `roundtrip_single` concludes with the tree whose stores are *re-read from their rendering*
+  (`reintake`); "same attribute name/value pairs" and "second serialisation identical" need `ViewStable` of every
+  store, which was a hypothesis.  It is a theorem for every store the constructor builds. -/
+
+/-- **C01 (attribute stores).** For EVERY raw attribute list `l` — `class`, `style`, `spellcheck`, duplicate names,
+    upper-case names, invalid names included — the store `AdvancedTag.__init__` builds from `l`, rendered by
+    `getStartTag` and read again by a parse, lists the same name/value pairs in the same order. -/
+theorem intake_viewStable (l : List Attr) : ViewStable (intake l AttrState.empty) := intake_view_stable l
+
+/-- the same, spelled out -/
+theorem intake_view_fixed (l : List Attr) :
+    (intake (intake l AttrState.empty).view AttrState.empty).view = (intake l AttrState.empty).view :=
+  intake_view_stable l
+
+/-- a re-read store is re-read exactly ever after (any number of round trips) -/
+theorem reintake_viewStable (a : AttrState) : ViewStable (reintakeA a) := isIntake_stable_reintake a
+
+/-- **C01 (every parsed tree is `Stable`).** Whatever the token list — any order, however nested, first pass or
+    wrapped second pass — every attribute store of the tree `feedTokens` builds is re-read exactly. -/
+theorem parsed_stable (toks : List Token) (d : Doc) (second : Bool) (h : feedTokens toks = .doc d second) :
+    ∀ r, d.root = some r → r.Stable := feedTokens_stable toks d second h
+
+/-- **C01 (every constructed tree is `Stable`).** A tree built through `AdvancedTag(name, attrList, isSelfClosing)`
+    and `appendBlock` from RAW attribute lists (`CNode`, `CNode.build`). -/
+theorem constructed_stable (c : CNode) : c.build.toNode.Stable := cnode_stable c
+
+/-- **C01 (every parsed tree is in lexical normal form)** — the class `LNode` / `LNode.WF` of the round-trip
+    theorems contains every tree a parse produces: no empty text block, lower-case names, void names self-closing,
+    self-closing elements empty. -/
+theorem parsed_lexical_normal_form (toks : List Token) (d : Doc) (second : Bool) (h : feedTokens toks = .doc d second)
+    (l : LNode) (hl : d.root = some l.toNode) : l.WF :=
+  wf_of_lex l (feedTokens_lex toks d second h _ hl)
+
+/-- what the API shows of a `Stable` tree in lexical normal form is what it shows of the tree re-read by a parse:
+    same names, same attribute name/value pairs in the same order, same self-closing flags, same text blocks -/
+theorem reparsed_shows_same (l : LNode) (hwf : l.WF) (hst : l.toNode.Stable) : l.toNode.reintake.obs = l.toNode.obs :=
+  lnode_obs_reintake l hwf hst
+
+/-! ##### single root, without the `Stable` hypothesis -/
+
+/-- `roundtrip_single` + `second_serialisation_identical` + attribute preservation for a root all of whose stores
+    are constructor images (`Node.Built`): the common core of the `_parsed` and `_constructed` forms -/
+theorem roundtrip_single_built (dt : Option Str) (n : Str) (a : AttrState) (sc : Bool) (kids : List LNode)
+    (hb : (LNode.elem n a sc kids).toNode.Built)
+    (hwf : (LNode.elem n a sc kids).WF) (hw : n ≠ wrapperName)
+    (hok : ToksOK (doctypeToks dt ++ (LNode.elem n a sc kids).toks)) :
+    ∃ toks dt' parsed,
+      lexStrict (docHTML dt (LNode.elem n a sc kids).toNode) = some toks ∧
+      feedTokens toks = .doc ⟨dt', some parsed⟩ false ∧
+      parsed.obs = (LNode.elem n a sc kids).toNode.obs ∧
+      docHTML dt' parsed = docHTML dt (LNode.elem n a sc kids).toNode := by
+  obtain ⟨toks, h1, h2⟩ := roundtrip_single dt n a sc kids hwf hw hok
+  have hst := built_stable _ hb
+  exact ⟨toks, _, _, h1, h2, lnode_obs_reintake _ hwf hst, second_serialisation_identical dt n a sc kids hst⟩
+
+/-- **C01a/b (single root, constructed).** For every tree handed to the public constructor with RAW attribute
+    lists — the only hypotheses are the lexical ones (`WF`: void names self-closing …; `ToksOK`: the tokens are in the
+    serialiser's image) — `parse (getHTML d)` answers, has the same names, the same attribute name/value pairs in
+    the same order (class, style, spellcheck included), the same flags and text blocks, and serialises to the
+    identical string. -/
+theorem roundtrip_single_constructed (dt : Option Str) (n : Str) (l : List Attr) (sc : Bool) (kids : List CNode)
+    (hwf : (CNode.elem n l sc kids).build.WF) (hw : lower n ≠ wrapperName)
+    (hok : ToksOK (doctypeToks dt ++ (CNode.elem n l sc kids).build.toks)) :
+    ∃ toks dt' parsed,
+      lexStrict (docHTML dt (CNode.elem n l sc kids).build.toNode) = some toks ∧
+      feedTokens toks = .doc ⟨dt', some parsed⟩ false ∧
+      parsed.obs = (CNode.elem n l sc kids).build.toNode.obs ∧
+      docHTML dt' parsed = docHTML dt (CNode.elem n l sc kids).build.toNode := by
+  have hb := cnode_built (CNode.elem n l sc kids)
+  simp only [CNode.build] at hb hwf hok ⊢
+  exact roundtrip_single_built dt _ _ _ _ hb hwf hw hok
+
+/-- **C01a/b (single root, parsed).** For every tree obtained from a previous parse (`hp`; any tokens) — only
+    lexical hypotheses: the root is not the wrapper, the tokens are in the serialiser's image; `WF` is a consequence
+    of `hp` — the same conclusions.  `dt` is the document's doctype at serialisation time (the parsed one, or one set
+    through `setDoctype`). -/
+theorem roundtrip_single_parsed (toks0 : List Token) (dt0 : Option Str) (second0 : Bool)
+    (dt : Option Str) (n : Str) (a : AttrState) (sc : Bool) (kids : List LNode)
+    (hp : feedTokens toks0 = .doc ⟨dt0, some (LNode.elem n a sc kids).toNode⟩ second0)
+    (hw : n ≠ wrapperName) (hok : ToksOK (doctypeToks dt ++ (LNode.elem n a sc kids).toks)) :
+    ∃ toks dt' parsed,
+      lexStrict (docHTML dt (LNode.elem n a sc kids).toNode) = some toks ∧
+      feedTokens toks = .doc ⟨dt', some parsed⟩ false ∧
+      parsed.obs = (LNode.elem n a sc kids).toNode.obs ∧
+      docHTML dt' parsed = docHTML dt (LNode.elem n a sc kids).toNode :=
+  roundtrip_single_built dt n a sc kids (feedTokens_built toks0 _ second0 hp _ rfl)
+    (parsed_lexical_normal_form toks0 _ second0 hp _ rfl) hw hok
+
+/-- **C01b without hypothesis (constructed).** -/
+theorem second_serialisation_identical_constructed (dt : Option Str) (n : Str) (l : List Attr) (sc : Bool)
+    (kids : List CNode) :
+    docHTML ((doctypeToks dt).foldl stepD none) (CNode.elem n l sc kids).build.toNode.reintake
+      = docHTML dt (CNode.elem n l sc kids).build.toNode := by
+  have hst := cnode_stable (CNode.elem n l sc kids)
+  simp only [CNode.build] at hst ⊢
+  exact second_serialisation_identical dt _ _ _ _ hst
+
+/-- **C01b without hypothesis (parsed).** -/
+theorem second_serialisation_identical_parsed (toks0 : List Token) (dt0 : Option Str) (second0 : Bool)
+    (dt : Option Str) (n : Str) (a : AttrState) (sc : Bool) (kids : List LNode)
+    (hp : feedTokens toks0 = .doc ⟨dt0, some (LNode.elem n a sc kids).toNode⟩ second0) :
+    docHTML ((doctypeToks dt).foldl stepD none) (LNode.elem n a sc kids).toNode.reintake
+      = docHTML dt (LNode.elem n a sc kids).toNode :=
+  second_serialisation_identical dt n a sc kids (parsed_stable toks0 _ second0 hp _ rfl)
+
+/-! ##### multi-root, without the `Stable` hypothesis -/
+
+theorem roundtrip_multi_built (ks : List LNode) (hb : BuiltL (toNodeL ks)) (hwf : WFLL ks) (hok : ToksOK (toksL ks))
+    (hmulti : run BState.init (toksL ks) = .multipleRoot) :
+    ∃ toks kids',
+      lexStrict (docHTML none (.elem wrapperName AttrState.empty false (toNodeL ks))) = some toks ∧
+      feedTokens toks = .doc ⟨none, some (.elem wrapperName AttrState.empty false kids')⟩ true ∧
+      obsL kids' = obsL (toNodeL ks) ∧
+      docHTML none (.elem wrapperName AttrState.empty false kids')
+        = docHTML none (.elem wrapperName AttrState.empty false (toNodeL ks)) := by
+  obtain ⟨toks, h1, h2⟩ := roundtrip_multi ks hwf hok hmulti
+  have hst := builtL_stable _ hb
+  refine ⟨toks, _, h1, h2, lforest_obs_reintake ks hwf hst, ?_⟩
+  simp only [docHTML, Node.innerHTML, if_true, Bool.false_eq_true, if_false]
+  rw [htmlL_reintake _ hst]
+
+/-- **C01a/b (multi-root, constructed).** Top-level blocks built through the constructor from raw lists, shown
+    under the invisible wrapper: lexical hypotheses only. -/
+theorem roundtrip_multi_constructed (cs : List CNode) (hwf : WFLL (buildCL cs)) (hok : ToksOK (toksL (buildCL cs)))
+    (hmulti : run BState.init (toksL (buildCL cs)) = .multipleRoot) :
+    ∃ toks kids',
+      lexStrict (docHTML none (.elem wrapperName AttrState.empty false (toNodeL (buildCL cs)))) = some toks ∧
+      feedTokens toks = .doc ⟨none, some (.elem wrapperName AttrState.empty false kids')⟩ true ∧
+      obsL kids' = obsL (toNodeL (buildCL cs)) ∧
+      docHTML none (.elem wrapperName AttrState.empty false kids')
+        = docHTML none (.elem wrapperName AttrState.empty false (toNodeL (buildCL cs))) :=
+  roundtrip_multi_built _ (cnodeL_built cs) hwf hok hmulti
+
+/-- **C01a/b (multi-root, parsed).** A wrapped document obtained from a previous parse: `WF` follows from `hp`. -/
+theorem roundtrip_multi_parsed (toks0 : List Token) (dt0 : Option Str) (second0 : Bool) (ks : List LNode)
+    (hp : feedTokens toks0 = .doc ⟨dt0, some (.elem wrapperName AttrState.empty false (toNodeL ks))⟩ second0)
+    (hok : ToksOK (toksL ks)) (hmulti : run BState.init (toksL ks) = .multipleRoot) :
+    ∃ toks kids',
+      lexStrict (docHTML none (.elem wrapperName AttrState.empty false (toNodeL ks))) = some toks ∧
+      feedTokens toks = .doc ⟨none, some (.elem wrapperName AttrState.empty false kids')⟩ true ∧
+      obsL kids' = obsL (toNodeL ks) ∧
+      docHTML none (.elem wrapperName AttrState.empty false kids')
+        = docHTML none (.elem wrapperName AttrState.empty false (toNodeL ks)) := by
+  have hb := feedTokens_built toks0 _ second0 hp _ rfl
+  have hl := feedTokens_lex toks0 _ second0 hp _ rfl
+  simp only [Node.Built] at hb
+  simp only [Node.Lex] at hl
+  exact roundtrip_multi_built ks hb.2 (wfL_of_lex ks hl.2.2.2) hok hmulti
+
+/-! #### C01a at `norm` level — API-built trees with arbitrary text segmentation
+
+  Review finding (C01-2): the header cited a theorem that did not exist.  What holds: -/
+
+/-- `getHTML` depends only on the normal form of the tree (adjacent text blocks merged, empty ones dropped) -/
+theorem getHTML_ignores_text_segmentation (dt : Option Str) (t : Node) : docHTML dt t.norm = docHTML dt t :=
+  docHTML_norm dt t
+
+/-- **C01a (any text segmentation).** `t` is ANY tree — text blocks split or empty as the DOM API leaves them —
+    that equals a lexical normal form `l` up to text segmentation.  Then `getHTML t` is `getHTML l`, it lexes, and the
+    parse of it is `t` with its stores re-read, up to text segmentation; if moreover every store of `t` is re-read
+    exactly (`Stable`: e.g. `Built`), the parse shows the same names, attribute pairs, flags and merged text as `t`. -/
+theorem roundtrip_single_any_segmentation (dt : Option Str) (t : Node) (n : Str) (a : AttrState) (sc : Bool)
+    (kids : List LNode) (hnorm : t.norm = (LNode.elem n a sc kids).toNode.norm)
+    (hwf : (LNode.elem n a sc kids).WF) (hw : n ≠ wrapperName)
+    (hok : ToksOK (doctypeToks dt ++ (LNode.elem n a sc kids).toks)) :
+    ∃ toks dt' parsed,
+      lexStrict (docHTML dt t) = some toks ∧
+      feedTokens toks = .doc ⟨dt', some parsed⟩ false ∧
+      parsed.norm = t.reintake.norm ∧
+      (t.Stable → parsed.norm.obs = t.norm.obs) := by
+  obtain ⟨toks, h1, h2⟩ := roundtrip_single dt n a sc kids hwf hw hok
+  have hhtml : docHTML dt t = docHTML dt (LNode.elem n a sc kids).toNode := by
+    rw [← docHTML_norm dt t, hnorm, docHTML_norm]
+  have hn : (LNode.elem n a sc kids).toNode.reintake.norm = t.reintake.norm := by
+    rw [norm_reintake, ← hnorm, ← norm_reintake]
+  refine ⟨toks, _, _, by rw [hhtml]; exact h1, h2, hn, ?_⟩
+  intro hst
+  rw [hn, norm_reintake, obs_reintake_norm t hst]
+
+/-! #### Non-vacuity with class / style / spellcheck, duplicates, upper case, invalid names -/
+
+/-- `AdvancedTag('DIV', [('CLASS','  a   b '), ('style','COLOR : red;; margin:0'), ('id','x'), ('ID','y'), ('1bad','z'),
+      ('spellcheck','yes'), ('hidden', None)])` with a text block, a `<br>` and a `<p class>` (no class names) inside -/
+def exStyledAttrs : List Attr :=
+  [("CLASS".toList, some "  a   b ".toList), ("style".toList, some "COLOR : red;; margin:0".toList),
+   ("id".toList, some "x".toList), ("ID".toList, some "y".toList), ("1bad".toList, some "z".toList),
+   ("spellcheck".toList, some "yes".toList), ("hidden".toList, none)]
+
+def exStyledKids : List CNode :=
+  [.tok (.data "t".toList), .elem "br".toList [] false [],
+   .elem "P".toList [("class".toList, none), ("style".toList, some "top: 1px".toList)] false [.tok (.entity "amp".toList)]]
+
+def exStyled : CNode := .elem "DIV".toList exStyledAttrs false exStyledKids
+
+/-- what the constructor made of the raw list: names lower-cased, the invalid name dropped, the last `id` at the
+    position of the first, class words joined by single blanks, the style re-rendered, spellcheck as boolean string;
+    `class` listed last, `style` at its dict position -/
+example : (intake exStyledAttrs AttrState.empty).view =
+    [("style".toList, some "color: red; margin: 0".toList), ("id".toList, some "y".toList),
+     ("spellcheck".toList, some "true".toList), ("hidden".toList, none), ("class".toList, some "a b".toList)] := by
+  decide
+
+theorem exStyled_wf : exStyled.build.WF := by
+  simp only [exStyled, exStyledKids, CNode.build, buildCL, LNode.WF, WFLL, Spec.textOf]
+  decide
+
+set_option maxRecDepth 8192 in
+theorem exStyled_lexOK : exStyled.build.LexOK := by
+  simp only [exStyled, exStyledKids, exStyledAttrs, CNode.build, buildCL, LNode.LexOK, LexOKL, NoAdjL, RawKidsOK, isDataTok]
+  decide
+
+/-- `roundtrip_single_constructed` applies to it: the hypotheses are satisfiable with class and style present -/
+example : ∃ toks dt' parsed,
+    lexStrict (docHTML (some "DOCTYPE html".toList) exStyled.build.toNode) = some toks ∧
+    feedTokens toks = .doc ⟨dt', some parsed⟩ false ∧
+    parsed.obs = exStyled.build.toNode.obs ∧
+    docHTML dt' parsed = docHTML (some "DOCTYPE html".toList) exStyled.build.toNode :=
+  roundtrip_single_constructed (some "DOCTYPE html".toList) "DIV".toList exStyledAttrs false exStyledKids
+    exStyled_wf (by decide)
+    (by
+      have hwf := exStyled_wf
+      have hlex := exStyled_lexOK
+      simp only [exStyled, CNode.build] at hwf hlex ⊢
+      exact toksOK_of_lexOK_single _ _ _ _ _ hwf hlex (Or.inr (by decide)))
+
+/-- `second_serialisation_identical` (the original theorem, hypothesis `Stable`) instantiated on it: the hypothesis
+    is met by `constructed_stable` -/
+example : docHTML ((doctypeToks (some "DOCTYPE html".toList)).foldl stepD none) exStyled.build.toNode.reintake
+    = docHTML (some "DOCTYPE html".toList) exStyled.build.toNode := by
+  have hst := constructed_stable exStyled
+  simp only [exStyled, CNode.build] at hst ⊢
+  exact second_serialisation_identical _ _ _ _ _ hst
+
+-- the serialisation in question, spelled out
+set_option maxRecDepth 8192 in
+example : docHTML none exStyled.build.toNode
+    = ("<div style=\"color: red; margin: 0\" id=\"y\" spellcheck=\"true\" hidden class=\"a b\" >t<br />"
+       ++ "<p style=\"top: 1px\" >&amp;</p></div>").toList := by decide
+
+/-- a multi-root forest with class and style attributes: two `<p>` built from raw lists -/
+def exForest : List CNode :=
+  [.elem "p".toList [("class".toList, some "x  y".toList)] false [.tok (.data "a".toList)],
+   .tok (.comment "c".toList),
+   .elem "P".toList [("STYLE".toList, some "color:red".toList), ("class".toList, some "z".toList)] false []]
+
+theorem exForest_wf : WFLL (buildCL exForest) := by
+  simp only [exForest, CNode.build, buildCL, LNode.WF, WFLL, Spec.textOf]
+  decide
+
+set_option maxRecDepth 8192 in
+theorem exForest_lexOK : LexOKL (buildCL exForest) := by
+  simp only [exForest, CNode.build, buildCL, LNode.LexOK, LexOKL, NoAdjL, RawKidsOK, isDataTok]
+  decide
+
+theorem exForest_noAdj : NoAdjL (buildCL exForest) := by
+  simp [exForest, CNode.build, buildCL, NoAdjL, isDataTok]
+
+set_option maxRecDepth 8192 in
+theorem exForest_multi : run BState.init (toksL (buildCL exForest)) = .multipleRoot := by rfl
+
+/-- `roundtrip_multi` (the original theorem) instantiated: `hmulti` and `ToksOK` hold for the forest -/
+example : ∃ toks, lexStrict (docHTML none (.elem wrapperName AttrState.empty false (toNodeL (buildCL exForest)))) = some toks ∧
+    feedTokens toks
+      = .doc ⟨none, some (.elem wrapperName AttrState.empty false (reintakeL (toNodeL (buildCL exForest))))⟩ true :=
+  roundtrip_multi (buildCL exForest) exForest_wf
+    (toksOK_of_lexOK_multi _ exForest_wf exForest_lexOK exForest_noAdj) exForest_multi
+
+/-- …and the form without `Stable`: same attribute pairs, identical second serialisation -/
+example : ∃ toks kids',
+    lexStrict (docHTML none (.elem wrapperName AttrState.empty false (toNodeL (buildCL exForest)))) = some toks ∧
+    feedTokens toks = .doc ⟨none, some (.elem wrapperName AttrState.empty false kids')⟩ true ∧
+    obsL kids' = obsL (toNodeL (buildCL exForest)) ∧
+    docHTML none (.elem wrapperName AttrState.empty false kids')
+      = docHTML none (.elem wrapperName AttrState.empty false (toNodeL (buildCL exForest))) :=
+  roundtrip_multi_constructed exForest exForest_wf
+    (toksOK_of_lexOK_multi _ exForest_wf exForest_lexOK exForest_noAdj) exForest_multi
+
+/-- a parsed instance: the tokens of `<p class="a  b" CLASS=c>x</p>` (duplicate `class`: the last one wins) give a
+    tree to which `roundtrip_single_parsed` applies -/
+def exParsedToks : List Token :=
+  [.start "p".toList [("class".toList, some "a  b".toList), ("CLASS".toList, some "c".toList)], .data "x".toList,
+   .end_ "p".toList]
+
+def exParsedRoot : LNode :=
+  .elem "p".toList (intake [("class".toList, some "a  b".toList), ("CLASS".toList, some "c".toList)] AttrState.empty)
+    false [.tok (.data "x".toList)]
+
+theorem exParsed_feed : feedTokens exParsedToks = .doc ⟨none, some exParsedRoot.toNode⟩ false := by rfl
+
+example : ∃ toks dt' parsed,
+    lexStrict (docHTML none exParsedRoot.toNode) = some toks ∧
+    feedTokens toks = .doc ⟨dt', some parsed⟩ false ∧
+    parsed.obs = exParsedRoot.toNode.obs ∧
+    docHTML dt' parsed = docHTML none exParsedRoot.toNode :=
+  roundtrip_single_parsed exParsedToks none false none _ _ _ _ exParsed_feed (by decide)
+    (toksOK_of_lexOK_single none _ _ _ _
+      (parsed_lexical_normal_form exParsedToks _ false exParsed_feed exParsedRoot rfl)
+      (by simp only [exParsedRoot, LNode.LexOK, LexOKL, NoAdjL, RawKidsOK, isDataTok]; decide) trivial)
+
+/-- an API-built tree with the text of `exParsedRoot` split up and empty blocks around it -/
+def exSplit : Node :=
+  .elem "p".toList (intake [("class".toList, some "a  b".toList), ("CLASS".toList, some "c".toList)] AttrState.empty) false
+    [.text [], .text "x".toList, .text []]
+
+/-- it equals `exParsedRoot` up to text segmentation … -/
+theorem exSplit_norm : exSplit.norm = exParsedRoot.toNode.norm := by
+  simp [exSplit, Node.norm, normL, exParsedRoot, LNode.toNode, toNodeL, textOfD, Spec.textOf]
+
+/-- … so `roundtrip_single_any_segmentation` applies: its hypotheses are satisfiable by a tree that is NOT in
+    lexical normal form -/
+example : ∃ toks dt' parsed,
+    lexStrict (docHTML none exSplit) = some toks ∧
+    feedTokens toks = .doc ⟨dt', some parsed⟩ false ∧
+    parsed.norm = exSplit.reintake.norm ∧
+    (exSplit.Stable → parsed.norm.obs = exSplit.norm.obs) :=
+  roundtrip_single_any_segmentation none exSplit _ _ _ _ exSplit_norm
+    (parsed_lexical_normal_form exParsedToks _ false exParsed_feed exParsedRoot rfl) (by decide)
+    (toksOK_of_lexOK_single none _ _ _ _
+      (parsed_lexical_normal_form exParsedToks _ false exParsed_feed exParsedRoot rfl)
+      (by simp only [exParsedRoot, LNode.LexOK, LexOKL, NoAdjL, RawKidsOK, isDataTok]; decide) trivial)
 
 end AHP.C01
